@@ -7,14 +7,80 @@
 
 package cache
 
-// ---- RefreshPods: NOT under contract ---------------------------------------------------------------------------
-// The body contains a channel receive (`podResList := <-resCh`); the engine rejects the whole function
-// ("unsupported: unary op <- at cache.go:699"), also when the contract requires resCh == nil. The intended contract:
-//     requires cacheOK(cch) && keyed(cch) && podsListOK(pods)
-//     ensures  forall id :: (id in cch.Pods) <==> inPodList(pods, id)                      (exactly the listed pods stay / are inserted)
-//     ensures  forall id :: id in cch.Containers ==> cch.Containers[id].Ctr.PodSandboxId in cch.Pods   (no container of an unlisted pod stays)
-//     ensures  result2 = exactly the containers removed, each marked ContainerStateStale; result1 = exactly the pods removed
-// These clauses are exercised on the real code by the bounded stand-in <verif>/bounded/C11_cache_refresh_test.go.
+// ---- RefreshPods ---------------------------------------------------------------------------------------------
+// The channel receive (`podResList := <-resCh`) is modelled as an arbitrary list (possibly nil); no claim about the sender.
+//@ pure podListOK(ps []*nri.PodSandbox) bool = forall j int :: 0 <= j && j < len(ps) ==> ps[j] != nil
+//@ pure inPodList(ps []*nri.PodSandbox, id string) bool = exists j int :: 0 <= j && j < len(ps) && ps[j].Id == id
+
+// The pod-resources list is the value received from the agent's fetch goroutine; its lazily built index (unexported
+// fields l, m of the list object itself and freshly allocated wrappers) is all that these two methods touch. ASSUMED,
+// not verified: the received value is arbitrary in the channel model, so the list's own invariant (m != nil) has no
+// place to come from; nothing reachable from the cache is written.
+//@ assume-contract github.com/containers/nri-plugins/pkg/agent/podresapi.(*PodResourcesList).Len
+//@   modifies nothing
+//@ assume-contract github.com/containers/nri-plugins/pkg/agent/podresapi.(*PodResourcesList).GetPodResources
+//@   modifies nothing
+
+//@ func (*cache).RefreshPods safety=C14,C11
+//@   requires cacheOK(cch) && keyed(cch) && podListOK(pods)
+//@   ensures[C11] cacheOK(cch) && keyed(cch)
+//@   # cached pods that survive are the same objects as before
+//@   ensures[C11] forall id string :: id in cch.Pods && old(id in cch.Pods) ==> cch.Pods[id] == old(cch.Pods[id])
+//@   # every listed pod is cached afterwards
+//@   ensures[C11] forall j int :: 0 <= j && j < len(pods) ==> pods[j].Id in cch.Pods
+//@   # every pod purged from the cache is returned in the second result
+//@   ensures[C11] forall id string :: old(id in cch.Pods) && !(id in cch.Pods) ==> exists j int :: 0 <= j && j < len(result1) && result1[j] == old(cch.Pods[id])
+//@   # containers that survive are the same objects; every container purged is returned in the third result, marked stale
+//@   ensures[C11] forall id string :: id in cch.Containers ==> old(id in cch.Containers) && cch.Containers[id] == old(cch.Containers[id])
+//@   ensures[C11] forall id string :: old(id in cch.Containers) && !(id in cch.Containers) ==> exists j int :: 0 <= j && j < len(result2) && result2[j] == old(cch.Containers[id])
+//@   ensures[C11] forall j int :: 0 <= j && j < len(result2) ==> asCtr(result2[j]) != nil && asCtr(result2[j]).Ctr != nil &&
+//@                    asCtr(result2[j]).Ctr.State == ContainerStateStale && !(asCtr(result2[j]).Ctr.Id in cch.Containers)
+//@   # with every cached pod stored under its own id: exactly the listed pods remain, and no container of an unlisted pod
+//@   ensures[C11] old(podKeyed(cch)) ==> podKeyed(cch)
+//@   ensures[C11] old(podKeyed(cch)) ==> forall id string :: id in cch.Pods ==> inPodList(pods, id)
+//@   ensures[C11] old(podKeyed(cch)) ==> forall id string :: id in cch.Containers ==> cch.Containers[id].Ctr.PodSandboxId in cch.Pods
+//@ loop 0 in (*cache).RefreshPods at "range pods"
+//@   invariant[C14,C11] -1 <= rangeindex && rangeindex < len(pods)
+//@   invariant[C14,C11] cacheOK(cch) && keyed(cch) && podListOK(pods) && valid != nil && len(del) == 0 && len(containers) == 0
+//@   invariant[C11] forall id string :: old(id in cch.Pods) ==> id in cch.Pods && cch.Pods[id] == old(cch.Pods[id])
+//@   invariant[C11] forall j int :: 0 <= j && j <= rangeindex ==> pods[j].Id in cch.Pods && pods[j].Id in valid
+//@   invariant[C11] forall id string :: id in valid ==> inPodList(pods, id)
+//@   invariant[C11] old(podKeyed(cch)) ==> podKeyed(cch)
+//@   invariant[C11] dom(cch.Containers) == old(dom(cch.Containers)) && vals(cch.Containers) == old(vals(cch.Containers))
+//@ loop 1 in (*cache).RefreshPods at "range cch.Pods"
+//@   invariant[C14,C11] cacheOK(cch) && keyed(cch) && valid != nil && len(containers) == 0
+//@   invariant[C11] forall id string :: id in cch.Pods && old(id in cch.Pods) ==> cch.Pods[id] == old(cch.Pods[id])
+//@   invariant[C11] forall j int :: 0 <= j && j < len(pods) ==> pods[j].Id in cch.Pods && pods[j].Id in valid
+//@   invariant[C11] forall id string :: id in valid ==> inPodList(pods, id)
+//@   invariant[C11] old(podKeyed(cch)) ==> podKeyed(cch)
+//@   invariant[C11] old(podKeyed(cch)) ==> forall id string :: seen(id) && id in cch.Pods ==> id in valid
+//@   invariant[C11] forall id string :: old(id in cch.Pods) && !(id in cch.Pods) ==> exists j int :: 0 <= j && j < len(del) && del[j] == old(cch.Pods[id])
+//@   invariant[C11] dom(cch.Containers) == old(dom(cch.Containers)) && vals(cch.Containers) == old(vals(cch.Containers))
+//@ loop 2 in (*cache).RefreshPods at "range cch.Containers"
+//@   invariant[C14,C11] cacheOK(cch) && keyed(cch) && valid != nil
+//@   invariant[C11] forall id string :: id in cch.Pods && old(id in cch.Pods) ==> cch.Pods[id] == old(cch.Pods[id])
+//@   invariant[C11] forall j int :: 0 <= j && j < len(pods) ==> pods[j].Id in cch.Pods
+//@   invariant[C11] forall id string :: id in valid ==> inPodList(pods, id)
+//@   invariant[C11] old(podKeyed(cch)) ==> podKeyed(cch)
+//@   invariant[C11] old(podKeyed(cch)) ==> forall id string :: id in cch.Pods ==> inPodList(pods, id)
+//@   invariant[C11] old(podKeyed(cch)) ==> forall id string :: seen(id) && id in cch.Containers ==> cch.Containers[id].Ctr.PodSandboxId in cch.Pods
+//@   invariant[C11] forall id string :: old(id in cch.Pods) && !(id in cch.Pods) ==> exists j int :: 0 <= j && j < len(del) && del[j] == old(cch.Pods[id])
+//@   invariant[C11] forall id string :: id in cch.Containers ==> old(id in cch.Containers) && cch.Containers[id] == old(cch.Containers[id])
+//@   invariant[C11] forall id string :: old(id in cch.Containers) && !(id in cch.Containers) ==> exists j int :: 0 <= j && j < len(containers) && containers[j] == old(cch.Containers[id])
+//@   invariant[C11] forall j int :: 0 <= j && j < len(containers) ==> asCtr(containers[j]) != nil && asCtr(containers[j]).Ctr != nil &&
+//@                    asCtr(containers[j]).Ctr.State == ContainerStateStale && !(asCtr(containers[j]).Ctr.Id in cch.Containers)
+//@ loop 3 in (*cache).RefreshPods at "range cch.Pods"
+//@   invariant[C14,C11] cacheOK(cch) && keyed(cch)
+//@   invariant[C11] forall id string :: id in cch.Pods && old(id in cch.Pods) ==> cch.Pods[id] == old(cch.Pods[id])
+//@   invariant[C11] forall j int :: 0 <= j && j < len(pods) ==> pods[j].Id in cch.Pods
+//@   invariant[C11] old(podKeyed(cch)) ==> podKeyed(cch)
+//@   invariant[C11] old(podKeyed(cch)) ==> forall id string :: id in cch.Pods ==> inPodList(pods, id)
+//@   invariant[C11] old(podKeyed(cch)) ==> forall id string :: id in cch.Containers ==> cch.Containers[id].Ctr.PodSandboxId in cch.Pods
+//@   invariant[C11] forall id string :: old(id in cch.Pods) && !(id in cch.Pods) ==> exists j int :: 0 <= j && j < len(del) && del[j] == old(cch.Pods[id])
+//@   invariant[C11] forall id string :: id in cch.Containers ==> old(id in cch.Containers) && cch.Containers[id] == old(cch.Containers[id])
+//@   invariant[C11] forall id string :: old(id in cch.Containers) && !(id in cch.Containers) ==> exists j int :: 0 <= j && j < len(containers) && containers[j] == old(cch.Containers[id])
+//@   invariant[C11] forall j int :: 0 <= j && j < len(containers) ==> asCtr(containers[j]) != nil && asCtr(containers[j]).Ctr != nil &&
+//@                    asCtr(containers[j]).Ctr.State == ContainerStateStale && !(asCtr(containers[j]).Ctr.Id in cch.Containers)
 
 // ---- RefreshContainers ---------------------------------------------------------------------------------------
 // List items of an NRI container list are present (the optional parts are the sub-messages inside them).
@@ -35,14 +101,23 @@ package cache
 //@   ensures[C11] forall j int :: 0 <= j && j < len(result0) ==> fresh(asCtr(result0[j])) && (exists i int :: 0 <= i && i < len(containers) && asCtr(result0[j]).Ctr == containers[i])
 //@   # pods are not touched
 //@   ensures[C11] dom(cch.Pods) == old(dom(cch.Pods)) && vals(cch.Pods) == old(vals(cch.Pods))
+//@   # classification: every container that remains cached is listed; every cached container that is listed remains
+//@   ensures[C11] forall id string :: id in cch.Containers ==> inList(containers, id)
+//@   ensures[C11] forall id string :: old(id in cch.Containers) && inList(containers, id) ==> id in cch.Containers
 //@ loop 0 in (*cache).RefreshContainers at "range containers"
 //@   invariant[C14,C11] -1 <= rangeindex && rangeindex < len(containers)
-//@   invariant[C14,C11] cacheOK(cch) && keyed(cch) && ctrListOK(containers) && valid != nil && len(del) == 0
+//@   invariant[C14,C11] cacheOK(cch) && keyed(cch) && ctrListOK(containers) && valid != nil && len(del) == 0 && valid != cch.pending
 //@   invariant[C11] forall id string :: old(id in cch.Containers) ==> id in cch.Containers && cch.Containers[id] == old(cch.Containers[id])
 //@   invariant[C11] forall j int :: 0 <= j && j < len(add) ==> fresh(asCtr(add[j])) && (exists i int :: 0 <= i && i < len(containers) && asCtr(add[j]).Ctr == containers[i])
 //@   invariant[C11] dom(cch.Pods) == old(dom(cch.Pods)) && vals(cch.Pods) == old(vals(cch.Pods))
+//@   invariant[C11] forall id string :: id in valid ==> inList(containers, id)
+//@   invariant[C11] forall j int :: 0 <= j && j <= rangeindex ==> containers[j].Id in valid
 //@ loop 1 in (*cache).RefreshContainers at "range cch.Containers"
 //@   invariant[C14,C11] cacheOK(cch) && keyed(cch) && valid != nil
+//@   invariant[C11] forall id string :: id in valid ==> inList(containers, id)
+//@   invariant[C11] forall j int :: 0 <= j && j < len(containers) ==> containers[j].Id in valid
+//@   invariant[C11] forall id string :: seen(id) && id in cch.Containers ==> id in valid
+//@   invariant[C11] forall id string :: old(id in cch.Containers) && id in valid ==> id in cch.Containers
 //@   invariant[C11] forall id string :: id in cch.Containers && old(id in cch.Containers) ==> cch.Containers[id] == old(cch.Containers[id])
 //@   invariant[C11] forall id string :: old(id in cch.Containers) && !(id in cch.Containers) ==> exists j int :: 0 <= j && j < len(del) && del[j] == old(cch.Containers[id])
 //@   invariant[C11] forall j int :: 0 <= j && j < len(del) ==> asCtr(del[j]) != nil && asCtr(del[j]).Ctr != nil &&
